@@ -19,12 +19,24 @@ CHECKS = {
    text="Whole networks run on an in-memory fabric under a paused clock, so content, sizes, concurrency, completion order and datagram loss/reorder/duplication are generated dimensions. Exploration; errors are allowed outcomes under faults.",
    note="Trusted: tokio paused clock, the fabric, quinn/rustls below anemo. Health gate: fault-free cases with <99% success are inconclusive.",
    design="§4 C02"),
+ "C03": dict(
+   engine="simnet+proptest",
+   technique="property-based testing on a simulated network with an impostor: generated address->identity assignments, pinned/unpinned concurrent dials and handshake-phase loss; invariants over dial results, listings, events and served requests",
+   text="Honest networks plus a raw-QUIC impostor replaying certificates; concurrency of dials and loss bursts are generated. Oracle is one-directional where the statement is (Ok => ...), Err always allowed under loss. Exploration.",
+   note="Trusted: fabric + paused clock, rustls/quinn. Self-dials excluded by construction (counted).",
+   design="§4 C03"),
  "C07": dict(
    engine="proptest+libfuzzer",
    technique="property-based testing: round-trip + differential against a hand-written reference codec, exhaustive enumeration of small sub-spaces; coverage-guided fuzzing of the decoders in the thorough tier",
    text="Generated messages and byte strings against an independent reference encoder/decoder; versions, status codes and preamble bytes enumerated completely. Exploration: it samples the message space, it does not prove the codec.",
    note="Trusted: the hand-written reference codec (refmodel::wire) as layout authority, in-memory AsyncRead/AsyncWrite standing in for QUIC streams.",
    design="§4 C07"),
+ "C10": dict(
+   engine="simnet+proptest",
+   technique="property-based testing: model-based operation histories (arrivals, explicit dials, disconnects, affinity-table mutations, background dials) against an admission reference model written from the documentation; listing compared with the model after every settled step",
+   text="The limit, the affinity table and the history are generated; the reference model decides every arrival and the listener's listing must equal it after each step, so drift in counting is visible. Exploration of histories up to 15 steps.",
+   note="Trusted: fabric + paused clock. Arrivals are non-overlapping as the statement requires; arrivals of peers being dialed in the background and explicit dials to Never peers are excluded by construction.",
+   design="§4 C10"),
  "C11": dict(
    engine="simnet+proptest",
    technique="property-based testing in virtual time: generated default timeouts on both ends x timeout-header grammar x handler durations; oracle = independent min-over-optional deadline model predicting outcome and completion time",
@@ -38,6 +50,12 @@ CHECKS = {
    text="The deciding dimension is the abandon instant, enumerated at packet-event granularity per generated shape (thinned above 64 points); histories exceed the concurrent-stream limit; services with backpressure are generated too.",
    note="Trusted: fabric + paused clock; 'promptly' = within 1 virtual second. Between two fabric events nothing observable changes for the remote peer.",
    design="§4 C12"),
+ "C14": dict(
+   engine="simnet+proptest",
+   technique="exhaustive configuration grid over a small name alphabet on the simulated network + property-based adversarial SNI/certificate-name combinations (raw QUIC endpoint) + verifier-level generated name sets; oracle computed from the configuration alone and an x509 reference",
+   text="All (primary, optional alternate) configurations over six related names are enumerated for dialer x listener; SNI and certificate names of an adversarial dialer / impostor listener are generated independently. Exploration outside the enumerated grid.",
+   note="Trusted: webpki name matching below the anemo verifiers; completeness ('matching names connect') is only claimed for the plain grid names.",
+   design="§4 C14"),
  "C15": dict(
    engine="simnet+proptest",
    technique="property-based testing: sizes within +-3 bytes of generated limits enumerated for each of the four frames and four limit placements, at codec level (in-memory) and network level (simnet); frame sizes from the reference codec; default-config sizes around 8 MiB",
